@@ -217,6 +217,8 @@ def check_c12(prop, tier):
             # diagnostic: the writer model (Write in PatchText.tla) vs the real writer, canonical spelling
             stats['writer_agrees_with_model'] += 1
         res.cov['parts']['roundtrip'] = stats
+        import p_cstr
+        p_cstr.run_roundtrip(res, work)
         res.cov['traces_validated_against_impl'] += len(jobs)
         res.cov['evaluations'] += len(jobs)
         res.cov['distinct_nontrivial'] += len(uniq)
